@@ -416,6 +416,8 @@ def alias_writeback(ctx):
             return c.op == 'ne' and ((same_value(c.left, ka) and same_value(c.right, kb)) or
                                      (same_value(c.left, kb) and same_value(c.right, ka)))
         g = gate_with(a[4], distinct)
+        if not g and name == 'transfer':
+            g = _declaration_gate(ctx)
         ctx.ob('C01.R5', bake, a[0].lineno, f"write-back of the two results of {name} under `{show(ka, 20)}` and `{show(kb, 20)}`",
                bool(g), fact=str(g[0]) if g else 'no gate excludes equal names; the second store overwrites the first',
                why='when source and destination are the same declared object the source-side result is lost '
@@ -441,14 +443,64 @@ def alias_writeback(ctx):
                 if fid in pre_alias or not f_.exc:
                     continue
                 mentions = all(any(isinstance(x, Ref) and x.name == r for x in deep_walk(f_.test)) for r in roots)
-                shape_test = any(isinstance(x, ast.Attribute) and x.attr in ('size', 'shape') for x in deep_walk(f_.test))
+                t0 = f_.test
+                while isinstance(t0, ast.UnaryOp):
+                    t0 = t0.operand
+                shape_test = isinstance(t0, ast.Compare) and any(
+                    isinstance(strip_refs(x), ast.Attribute) and strip_refs(x).attr in ('size', 'shape')
+                    for x in [t0.left] + list(t0.comparators))
                 if mentions and not shape_test:
                     gated = True
+        # the gate may sit in the same block as the aliasing assignment (it then holds on every path from there on)
+        from .common import block_chain
+        chain = block_chain(st)
+        if chain and not gated:
+            blk, idx, parent, fname = chain[0]
+            for later in blk[idx + 1:]:
+                if isinstance(later, ast.If) and later.body and isinstance(later.body[-1], ast.Raise) and id(later) in fft.resolved:
+                    t = fft.resolved[id(later)]
+                    mentions = all(any(isinstance(x, Ref) and x.name == r for x in deep_walk(t)) for r in roots)
+                    t0 = t
+                    while isinstance(t0, ast.UnaryOp):
+                        t0 = t0.operand
+                    shape_test = isinstance(t0, ast.Compare) and any(
+                        isinstance(strip_refs(x), ast.Attribute) and strip_refs(x).attr in ('size', 'shape')
+                        for x in [t0.left] + list(t0.comparators))
+                    from ..flow import exc_name
+                    if mentions and not shape_test and exc_name(later.body[-1]) == 'ValueError':
+                        gated = True
         ctx.ob('C01.R5', fi, st.lineno, f"slices {roots} share one plate copy and are both written back", gated or not writes,
                fact=f"{len(writes)} write-backs after `{unparse(st, 60)}`; no gate on overlapping regions" if not gated else 'gated',
                why='for overlapping source and destination regions of one plate the second write-back overwrites '
                    'the first (material is created)', key='shared plate write-back')
     ctx.count('shared_plate_aliases', len(shared))
+
+
+def _declaration_gate(ctx):
+    """Recipe.transfer refuses a container as its own destination (ValueError) when the step is declared: then the
+    two names written back by bake cannot be equal for containers (for two slices of one plate both results are the
+    same shared plate object, see (b))."""
+    fi = ctx.model.func('Recipe.transfer')
+    ff = ctx.flow('Recipe.transfer')
+    params = fi.param_names()
+    for ex in ff.raise_exits():
+        if ex.exc != 'ValueError':
+            continue
+        for c in facts_at(ex.state):
+            if c.op != 'eq' or c.right is None:
+                continue
+            def names(e):
+                out = set()
+                for n in deep_walk(e):
+                    if isinstance(n, ast.Attribute) and n.attr == 'name':
+                        r = root_of_expr(n.value)
+                        if isinstance(r, Param):
+                            out.add(r.name)
+                return out
+            if names(c.left) | names(c.right) >= set(params[:2]):
+                # the refusal must not depend on anything but the operand types
+                return [f"Recipe.transfer: `{c}` -> ValueError at declaration"]
+    return []
 
 
 def _op_source(value):
